@@ -44,7 +44,14 @@ PROJ = {"TAN": lambda: models.Pix2Sky_TAN(), "STG": lambda: models.Pix2Sky_STG()
 
 def _build(case):
     frames = [G.frame_obj(f["name"], f["naxes"]) for f in case["frames"]]
-    return gw.WCS([(fr_, None if t is None else G.build(t)) for fr_, t in zip(frames, case["trs"])])
+    models_ = [None if t is None else G.build(t) for t in case["trs"]]
+    if case.get("stale_inv") is not None:
+        # the user-supplied inverse U already carries an inverse of its own (left over from earlier use, or set by the user):
+        # the WCS must still treat U as *the* inverse and its own backward.inverse must be the current forward transform
+        for t, m in zip(case["trs"], models_):
+            if t is not None and t[0] == "withinv":
+                m.inverse.inverse = G.build(case["stale_inv"])
+    return gw.WCS(list(zip(frames, models_)))
 
 
 def _vals(f, args, nout):
@@ -267,6 +274,7 @@ def stats(case, res, st):
     st["lawful"] += bool(case["lawful"])
     st["has_inverse"] += bool(res["has_inverse"])
     st["user_inverse"] += bool(case.get("user_inv"))
+    st["user_inverse_with_stale_inverse"] += bool(case.get("stale_inv"))
 
 
 def _has(t, tag):
@@ -302,8 +310,12 @@ def gen(rng, tier):
                 world.append([C.q2w(Fraction(float(v))) for v in r])
         except Exception:
             world = [G.point(rng, dims[-1])]
-        yield {"kind": "exact", "frames": frames, "trs": trs, "dims": dims, "pts": pts, "world": world, "lawful": lawful, "user_inv": user_inv,
-               "mutate": rng.random() < 0.4}
+        case = {"kind": "exact", "frames": frames, "trs": trs, "dims": dims, "pts": pts, "world": world, "lawful": lawful, "user_inv": user_inv,
+                "mutate": rng.random() < 0.4}
+        if user_inv and rng.random() < 0.6:
+            i = next(k for k, t in enumerate(trs) if t and t[0] == "withinv")
+            case["stale_inv"] = G.gen_tr(rng, dims[i + 1], dims[i], invertible=True)
+        yield case
     projs = list(PROJ)
     for i in range(32 if q else 800):
         proj = projs[i % len(projs)]
